@@ -40,9 +40,9 @@ type lockReq struct {
 func allStorePath(fi *FuncInfo) string {
 	// receiver name + ".allStore.m"
 	if fi.Decl.Recv != nil && len(fi.Decl.Recv.List) == 1 && len(fi.Decl.Recv.List[0].Names) == 1 {
-		return fi.Decl.Recv.List[0].Names[0].Name + ".allStore.m"
+		return fi.Decl.Recv.List[0].Names[0].Name + "." + allStoreField + ".m"
 	}
-	return "u.allStore.m"
+	return "u." + allStoreField + ".m"
 }
 
 // fileOwner resolves the transaction store that owns a *file expression.
@@ -668,7 +668,7 @@ func idRole(p *Prog, fi *FuncInfo, e ast.Expr, depth int) string {
 // storeRole classifies a Transaction lock path of a function as own / main / all / any.
 func storeRole(p *Prog, fi *FuncInfo, path string) string {
 	root := strings.TrimSuffix(path, ".m")
-	if strings.HasSuffix(root, ".allStore") {
+	if strings.HasSuffix(root, "."+allStoreField) {
 		return "all"
 	}
 	info := fi.Pkg.TypesInfo
